@@ -315,9 +315,16 @@ class C23:
             via = rng.weighted([("kw", 6), ("ctx", 2), ("tag:include", 2), ("tag:render", 1)])
             if ns is None and via == "ctx" and rng.chance(0.5):
                 via = "kw"
+            ctx_ns = None
+            if ns is not None and via == "kw" and rng.chance(0.2):
+                # a namespace by keyword AND a (different) one in the render context: the keyword wins
+                via = "both"
+                ctx_ns = rng.choice([u for u in NAMESPACES if u != ns])
             g = rng.weighted([(None, 4), ({}, 1), ({"g": "G%d" % rng.randint(1, 3)}, 4)])
             op = {"op": "req", "mode": rng.choice(["sync", "async"]), "name": name, "ns": ns, "via": via,
                   "globals": g}
+            if ctx_ns is not None:
+                op["ctx_ns"] = ctx_ns
             if config == "fault" and op["mode"] == "async" and rng.chance(0.25):
                 op["cancel_after"] = round(rng.random() * 0.02, 5)
             return op
@@ -489,6 +496,9 @@ class C23:
                     kwargs[NS_KEY] = ns
             elif via == "ctx":
                 kwargs["context"] = RenderContext(env.from_string(""), globals={NS_KEY: ns} if ns is not None else {})
+            elif via == "both":
+                kwargs[NS_KEY] = ns
+                kwargs["context"] = RenderContext(env.from_string(""), globals={NS_KEY: op["ctx_ns"]})
             if via.startswith("tag:"):
                 tag = via[4:]
                 wrapper = env.from_string("<{%% %s '%s' %%}>" % (tag, name), globals=g)
@@ -813,7 +823,7 @@ def _simpler_op(op):
     if op.get("cancel_after") is not None:
         yield {k: v for k, v in op.items() if k != "cancel_after"}
     if op["via"] != "kw":
-        yield {**op, "via": "kw"}
+        yield {k: v for k, v in {**op, "via": "kw"}.items() if k != "ctx_ns"}
     if op["globals"]:
         yield {**op, "globals": None}
     if op["mode"] == "async":
